@@ -17,8 +17,8 @@ RULE = ("requests: generator x (seed | injected 256-bit state) x constructor pat
 TRUSTED = ["the scalar cores (mix64 / next / jump of SplitMix64; rapid_mum / rapid_mix / wyrand / jump of Wyrand; advance / next_plusplus / next_plus / jump of "
            "Xoshiro256; rng_f32 / rng_f64) are TRANSLATED from the current source on every run (tools/extract_scalar.py -> Generated/Scalar.lean) and the model is proved "
            "equal to the translation (Props/C01T.lean); trusted there: the translator's reading of the Rust subset those functions use (wrapping arithmetic, shifts, "
-           "rotates, casts between unsigned widths, &mut parameters as extra results, counted loops as folds). The Rng impls, from_seed and rng_fill_bytes around them are "
-           "hand-modelled and tied by the correspondence",
+           "rotates, casts between unsigned widths, &mut parameters as extra results, counted loops as folds). The Rng impl methods and from_seed of the three generators are translated as well; rng_fill_bytes, fill_bytes / clone / split and "
+           "urandom::seeded's forwarding are hand-modelled and tied by the correspondence",
            "Spec/Published.lean is a transcription of Vigna's splitmix64.c / xoshiro256plusplus.c / xoshiro256plus.c and wyhash's wyrand (anchored by published known-answer vectors)"]
 ASSUMPTIONS = ["64-bit little-endian target only"]
 
